@@ -553,7 +553,9 @@ try:
 except KeyError:
     self.data_wrapper_cache[$k] = {ep}
     return {ep}
-"""), "R05-DEDUP-KEY",
+""") or has(m.expand_locals(fd), f"return self.data_wrapper_cache.setdefault("
+                               f"self._get_data_dedup_cache_key({ep}.data), {ep})"),
+            "R05-DEDUP-KEY",
             "DataWrapperDeduplicator.map_data_wrapper", "first-seen-wrapper-wins",
             m.loc(m.module_of(fd), fd),
             "the de-duplicator no longer maps equal-key wrappers to the first one seen")
